@@ -38,6 +38,22 @@ type val struct {
 	n    int64
 	f    map[string]*val
 	typ  types.Type
+	str  bool // a string value (compared only for equality)
+}
+
+func isStringVal(v *val) bool {
+	if v == nil {
+		return false
+	}
+	if v.str {
+		return true
+	}
+	if v.typ != nil {
+		if b, ok := v.typ.Underlying().(*types.Basic); ok && b.Info()&types.IsString != 0 {
+			return true
+		}
+	}
+	return false
 }
 
 func (v *val) clone() *val {
@@ -55,6 +71,13 @@ func (v *val) clone() *val {
 }
 
 type e8err struct{ msg string }
+
+// e8unknown: a run met an atom that discovery did not (it lies behind a branch
+// whose effects discovery does not carry forward); the driver adds it and restarts.
+type e8unknown struct {
+	name   string
+	isBool bool
+}
 
 func (e e8err) Error() string { return e.msg }
 
@@ -76,7 +99,7 @@ func (a *e8assign) R(name string) int {
 		}
 	}
 	if !ok {
-		e8fail("scalar %q is not an enumerated atom (the code computes a value the comparison-network model does not cover)", name)
+		panic(e8unknown{name, false})
 	}
 	return r
 }
@@ -84,7 +107,7 @@ func (a *e8assign) R(name string) int {
 func (a *e8assign) B(name string) bool {
 	b, ok := a.bools[name]
 	if !ok {
-		e8fail("boolean %q is not an enumerated atom", name)
+		panic(e8unknown{name, true})
 	}
 	return b
 }
@@ -106,6 +129,26 @@ type e8interp struct {
 	depth   int
 	collect *e8collector // discovery mode: record atoms instead of failing
 	lenEqOpaque bool     // treat len(x) == const as an opaque boolean
+	trace   []e8call     // opaque calls executed on this run, in order
+	opaque  map[*types.Func]bool // repository functions that must not be entered
+}
+
+// e8call records one executed call whose body the interpreter does not enter
+// (interface methods, dependency functions, builtins such as append).
+type e8call struct {
+	name string
+	fn   string // callee (method or function name)
+	args []*val
+}
+
+func (in *e8interp) called(fn string) []e8call {
+	var out []e8call
+	for _, c := range in.trace {
+		if c.fn == fn {
+			out = append(out, c)
+		}
+	}
+	return out
 }
 
 func (a *e8assign) has(names ...string) bool {
@@ -139,12 +182,14 @@ func (in *e8interp) newInputD(path string, t types.Type, d int) *val {
 	}
 	switch u := t.Underlying().(type) {
 	case *types.Struct:
-		v := &val{k: kStruct, f: map[string]*val{}, typ: t}
+		v := &val{k: kStruct, f: map[string]*val{}, typ: t, name: path}
 		for i := 0; i < u.NumFields(); i++ {
 			f := u.Field(i)
 			v.f[f.Name()] = in.newInputD(path+"."+f.Name(), f.Type(), d+1)
 		}
 		return v
+	case *types.Interface:
+		return &val{k: kStruct, f: map[string]*val{}, typ: t, name: path}
 	case *types.Array:
 		v := &val{k: kStruct, f: map[string]*val{}, typ: t}
 		for i := int64(0); i < u.Len() && i < 8; i++ {
@@ -162,6 +207,8 @@ func (in *e8interp) newInputD(path string, t types.Type, d int) *val {
 			return &val{k: kBool, name: path, typ: t}
 		case u.Info()&types.IsNumeric != 0:
 			return &val{k: kScalar, name: path, typ: t}
+		case u.Info()&types.IsString != 0:
+			return &val{k: kScalar, name: path, typ: t, str: true}
 		}
 	}
 	return &val{k: kScalar, name: path, typ: t}
@@ -305,6 +352,8 @@ func constVal(tv types.TypeAndValue) *val {
 		}
 		n, _ := constant.Int64Val(tv.Value)
 		return &val{k: kInt, n: n, typ: tv.Type}
+	case constant.String:
+		return &val{k: kScalar, name: tv.Value.ExactString(), typ: tv.Type, str: true}
 	case constant.Float:
 		f, _ := constant.Float64Val(tv.Value)
 		return &val{k: kScalar, name: strconv.FormatFloat(f, 'g', -1, 64), typ: tv.Type}
@@ -418,6 +467,22 @@ func (in *e8interp) eval(fr *e8frame, e ast.Expr) *val {
 				}
 				return &val{k: kBool, b: in.a.B(name)}
 			}
+			if (x.Op == token.EQL || x.Op == token.NEQ) && (isStringVal(l) || isStringVal(r)) {
+				name := in.symName(l) + "==" + in.symName(r)
+				if in.symName(r) < in.symName(l) {
+					name = in.symName(r) + "==" + in.symName(l)
+				}
+				var b bool
+				if in.collect != nil {
+					in.collect.bools[name] = true
+				} else {
+					b = in.a.B(name)
+				}
+				if x.Op == token.NEQ {
+					b = !b
+				}
+				return &val{k: kBool, b: b}
+			}
 			if in.lenEqOpaque && (x.Op == token.EQL || x.Op == token.NEQ) &&
 				((l.k == kScalar && strings.HasPrefix(l.name, "len(") && r.k == kInt) || (r.k == kScalar && strings.HasPrefix(r.name, "len(") && l.k == kInt)) {
 				name := types.ExprString(e)
@@ -500,14 +565,42 @@ func (in *e8interp) call(fr *e8frame, x *ast.CallExpr) *val {
 	info := fr.pkg.TypesInfo
 	if tv, ok := info.Types[x.Fun]; ok && tv.IsType() && len(x.Args) == 1 {
 		v := in.eval(fr, x.Args[0])
+		if b, ok := tv.Type.Underlying().(*types.Basic); ok && b.Info()&types.IsString != 0 && v.k != kScalar {
+			return &val{k: kScalar, name: in.valName(v, x.Args[0]), str: true, typ: tv.Type}
+		}
 		return v // conversions keep the value (int<->uint32<->float of the same atom)
 	}
 	callee := typeutil.Callee(info, x)
-	if b, ok := callee.(*types.Builtin); ok && b.Name() == "len" {
-		return &val{k: kScalar, name: "len(" + types.ExprString(x.Args[0]) + ")"}
+	if b, ok := callee.(*types.Builtin); ok {
+		switch b.Name() {
+		case "len":
+			if av := in.evalQuiet(fr, x.Args[0]); av != nil && av.k == kStruct && av.name != "" {
+				return &val{k: kScalar, name: "len(" + av.name + ")"}
+			}
+			return &val{k: kScalar, name: "len(" + types.ExprString(x.Args[0]) + ")"}
+		case "new":
+			if t := info.TypeOf(x.Args[0]); t != nil {
+				return zeroVal(t)
+			}
+		case "append", "copy", "make":
+			var args []*val
+			var names []string
+			for _, a := range x.Args {
+				if tv, ok := info.Types[a]; ok && tv.IsType() {
+					names = append(names, types.ExprString(a))
+					continue
+				}
+				av := in.eval(fr, a)
+				args = append(args, av)
+				names = append(names, in.valName(av, a))
+			}
+			name := b.Name() + "(" + strings.Join(names, ",") + ")"
+			in.trace = append(in.trace, e8call{name: name, fn: b.Name(), args: args})
+			return in.newInput(name, info.TypeOf(x))
+		}
 	}
 	fn, _ := callee.(*types.Func)
-	if fn != nil && in.p.IsRepoPkg(fn.Pkg()) && in.p.Decl(fn) != nil && in.p.Decl(fn).Body != nil && in.depth < 6 {
+	if fn != nil && !in.opaque[fn] && in.p.IsRepoPkg(fn.Pkg()) && in.p.Decl(fn) != nil && in.p.Decl(fn).Body != nil && in.depth < 6 {
 		fd, pkg := in.p.Decl(fn), in.p.DeclPkg(fn)
 		nf := newFrame(pkg)
 		if sel, ok := ast.Unparen(x.Fun).(*ast.SelectorExpr); ok && fd.Recv != nil {
@@ -570,8 +663,41 @@ func (in *e8interp) call(fr *e8frame, x *ast.CallExpr) *val {
 		}
 		return &val{k: kStruct, f: map[string]*val{"0": res.vals[0], "1": res.vals[1]}}
 	}
-	// opaque call: a boolean or scalar atom named by its text
-	name := types.ExprString(x)
+	// opaque call: an atom named by the callee and the symbolic names of its arguments
+	var args []*val
+	var names []string
+	calleeName := types.ExprString(x.Fun)
+	if fn != nil {
+		calleeName = fn.Name()
+		if fn.Pkg() != nil && fn.Type().(*types.Signature).Recv() == nil {
+			calleeName = fn.Pkg().Name() + "." + fn.Name()
+		}
+	}
+	if sel, ok := ast.Unparen(x.Fun).(*ast.SelectorExpr); ok {
+		if s, ok := info.Selections[sel]; ok && s.Kind() == types.MethodVal {
+			rv := in.evalQuiet(fr, sel.X)
+			args = append(args, rv)
+			names = append(names, in.valName(rv, sel.X))
+		}
+	}
+	for _, a := range x.Args {
+		av := in.evalQuiet(fr, a)
+		args = append(args, av)
+		names = append(names, in.valName(av, a))
+	}
+	name := calleeName + "(" + strings.Join(names, ",") + ")"
+	short := calleeName
+	if i := strings.LastIndex(short, "."); i >= 0 {
+		short = short[i+1:]
+	}
+	in.trace = append(in.trace, e8call{name: name, fn: short, args: args})
+	if tup, ok := info.TypeOf(x).(*types.Tuple); ok {
+		v := &val{k: kStruct, f: map[string]*val{}, typ: tup}
+		for i := 0; i < tup.Len(); i++ {
+			v.f[fmt.Sprint(i)] = in.newInput(fmt.Sprintf("%s#%d", name, i), tup.At(i).Type())
+		}
+		return v
+	}
 	if b, ok := info.TypeOf(x).Underlying().(*types.Basic); ok && b.Info()&types.IsBoolean != 0 {
 		if in.collect != nil {
 			in.collect.bools[name] = true
@@ -580,6 +706,48 @@ func (in *e8interp) call(fr *e8frame, x *ast.CallExpr) *val {
 		return &val{k: kBool, b: in.a.B(name)}
 	}
 	return in.newInput(name, info.TypeOf(x))
+}
+
+// evalQuiet evaluates an argument of an opaque call; expressions the model
+// does not cover become nil (they are then named by their source text).
+func (in *e8interp) evalQuiet(fr *e8frame, e ast.Expr) (v *val) {
+	defer func() {
+		if r := recover(); r != nil {
+			if _, ok := r.(e8err); ok {
+				v = nil
+				return
+			}
+			panic(r)
+		}
+	}()
+	if _, ok := ast.Unparen(e).(*ast.FuncLit); ok {
+		return nil
+	}
+	return in.eval(fr, e)
+}
+
+// valName: the symbolic name of a value (its atom name, or its source text).
+func (in *e8interp) valName(v *val, e ast.Expr) string {
+	if v != nil {
+		switch v.k {
+		case kScalar:
+			return v.name
+		case kInt:
+			return fmt.Sprint(v.n)
+		case kBool:
+			if v.name != "" {
+				return v.name
+			}
+			return fmt.Sprint(v.b)
+		case kStruct:
+			if v.name != "" {
+				return v.name
+			}
+		case kNil:
+			return "nil"
+		}
+	}
+	return types.ExprString(e)
 }
 
 // assignTo stores v at the lvalue e.
@@ -609,6 +777,8 @@ func (in *e8interp) assignTo(fr *e8frame, e ast.Expr, v *val, define bool) {
 			base.f[fmt.Sprint(idx.n)] = v.clone()
 			return
 		}
+		fr.named[types.ExprString(e)] = v.clone()
+		return
 	case *ast.StarExpr:
 		in.assignTo(fr, x.X, v, define)
 		return
@@ -783,7 +953,40 @@ func (in *e8interp) exec(fr *e8frame, st ast.Stmt) *e8return {
 			in.exec(fr, s.Init)
 		}
 		if s.Tag == nil {
-			e8fail("tagless switch not supported")
+			var def *ast.CaseClause
+			for _, cl := range s.Body.List {
+				cc := cl.(*ast.CaseClause)
+				if cc.List == nil {
+					def = cc
+					continue
+				}
+				hit := false
+				for _, e := range cc.List {
+					if in.collect != nil {
+						in.boolOf(in.eval(fr, e))
+						continue
+					}
+					if in.boolOf(in.eval(fr, e)) {
+						hit = true
+						break
+					}
+				}
+				if in.collect != nil {
+					in.execCopy(fr, &ast.BlockStmt{List: cc.Body})
+					continue
+				}
+				if hit {
+					return in.switchBody(fr, cc.Body)
+				}
+			}
+			if def != nil {
+				if in.collect != nil {
+					in.execCopy(fr, &ast.BlockStmt{List: def.Body})
+					return nil
+				}
+				return in.switchBody(fr, def.Body)
+			}
+			return nil
 		}
 		tag := in.eval(fr, s.Tag)
 		var def *ast.CaseClause
@@ -794,13 +997,24 @@ func (in *e8interp) exec(fr *e8frame, st ast.Stmt) *e8return {
 				continue
 			}
 			for _, e := range cc.List {
-				if in.compare(token.EQL, tag, in.eval(fr, e)) {
-					return in.runBody(fr, cc.Body)
+				if in.collect != nil {
+					in.compare(token.EQL, tag, in.eval(fr, e))
+					continue
 				}
+				if in.compare(token.EQL, tag, in.eval(fr, e)) {
+					return in.switchBody(fr, cc.Body)
+				}
+			}
+			if in.collect != nil {
+				in.execCopy(fr, &ast.BlockStmt{List: cc.Body})
 			}
 		}
 		if def != nil {
-			return in.runBody(fr, def.Body)
+			if in.collect != nil {
+				in.execCopy(fr, &ast.BlockStmt{List: def.Body})
+				return nil
+			}
+			return in.switchBody(fr, def.Body)
 		}
 		return nil
 	case *ast.BranchStmt:
@@ -813,6 +1027,15 @@ func (in *e8interp) exec(fr *e8frame, st ast.Stmt) *e8return {
 	}
 	e8fail("unsupported statement %T", st)
 	return nil
+}
+
+// switchBody runs a case body; a `break` inside it leaves the switch only.
+func (in *e8interp) switchBody(fr *e8frame, body []ast.Stmt) *e8return {
+	r := in.runBody(fr, body)
+	if r == breakSignal {
+		return nil
+	}
+	return r
 }
 
 var breakSignal = &e8return{}
